@@ -22,7 +22,7 @@
    Custom(func(){ Describef(i, msg) })  custom
    Describef                            describe
    Apply                                apply
-   SaveAutofixChanges                   save
+   SaveAutofixChanges                   save (fault-free), save_env / save_file (with faults)
    plistLineSorter (new.., Sort)        plist_sort
    Pkglint.checkExecutable              check_executable
 
@@ -326,10 +326,14 @@ Definition apply (o : opts) (l : line) : result (line * list (descr * Z)) :=
 
 (* ---------- SaveAutofixChanges ---------- *)
 
+(* the file operations that have an effect (a system call that fails is not listed) *)
 Inductive fsop :=
-| OpWrite (path content : str)      (* CurrPath.WriteString: create/truncate + write + close *)
+| OpCreateExcl (path : str)         (* os.OpenFile(O_WRONLY|O_CREATE|O_EXCL): a new, empty file *)
+| OpWrite (path content : str)      (* WriteString + Close on the file just created *)
+| OpChmodLike (path like : str)     (* Chmod(path, mode of [like]) *)
 | OpRename (from to : str)
-| OpChmod (path : str).             (* clear the executable bits *)
+| OpRemove (path : str)             (* os.Remove *)
+| OpChmod (path : str).             (* checkExecutable: clear the executable bits *)
 
 Definition line_bytes (l : line) : list str :=
   match l_fix l with
@@ -356,11 +360,50 @@ Fixpoint changed_files (ls : list line) (seen : list str) : list str :=
 
 Definition tmp_suffix : str := [46;112;107;103;108;105;110;116;46;116;109;112]%N. (* ".pkglint.tmp" *)
 
+(* what can go wrong while one file is saved *)
+Record env := Env {
+  e_tmp_exists : str -> bool;     (* the exclusive create of this temporary file fails (EEXIST, ...) *)
+  e_write_fails : str -> bool;    (* WriteString or Close fails *)
+  e_stat_fails : str -> bool;     (* Stat of the original fails: its mode is unknown *)
+  e_chmod_fails : str -> bool;
+  e_rename_fails : str -> bool
+}.
+
+Definition no_faults : env :=
+  Env (fun _ => false) (fun _ => false) (fun _ => false) (fun _ => false) (fun _ => false).
+
+(* the body of the loop `for filename := range changed`: operations with an effect, and
+   whether the file was saved *)
+Definition save_file (e : env) (f content : str) : list fsop * bool :=
+  let tmp := f ++ tmp_suffix in
+  if e_tmp_exists e tmp then ([], false)             (* "Cannot write", nothing touched *)
+  else
+    let werr := e_write_fails e tmp in
+    let written := if werr then [] else [OpWrite tmp content] in
+    let do_chmod := negb werr && negb (e_stat_fails e f) in
+    let cerr := do_chmod && e_chmod_fails e tmp in
+    let chmodded := if do_chmod && negb cerr then [OpChmodLike tmp f] else [] in
+    if werr || cerr then (OpCreateExcl tmp :: written ++ chmodded ++ [OpRemove tmp], false)
+    else if e_rename_fails e tmp then (OpCreateExcl tmp :: written ++ chmodded ++ [OpRemove tmp], false)
+    else (OpCreateExcl tmp :: written ++ chmodded ++ [OpRename tmp f], true).
+
+Definition save_env (e : env) (o : opts) (ls : list line) : list fsop * bool :=
+  if negb (o_autofix o) then ([], false)       (* fast lane: nothing is written *)
+  else
+    let results := map (fun f => save_file e f (file_content f ls)) (changed_files ls []) in
+    (flat_map fst results, existsb snd results).
+
+(* the fault-free sequence for one file *)
+Definition save_seq (f content : str) : list fsop :=
+  [OpCreateExcl (f ++ tmp_suffix); OpWrite (f ++ tmp_suffix) content;
+   OpChmodLike (f ++ tmp_suffix) f; OpRename (f ++ tmp_suffix) f].
+
+(* SaveAutofixChanges in a fault-free run (the run model below uses this one) *)
 Definition save (o : opts) (ls : list line) : list fsop * bool :=
   if negb (o_autofix o) then ([], false)       (* fast lane: nothing is written *)
   else
     let files := changed_files ls [] in
-    (flat_map (fun f => [OpWrite (f ++ tmp_suffix) (file_content f ls); OpRename (f ++ tmp_suffix) f]) files,
+    (flat_map (fun f => save_seq f (file_content f ls)) files,
      match files with [] => false | _ => true end).
 
 (* one printed AUTOFIX line: Logf(AutofixLogLevel, line.Filename(), lineno, ..., description) *)
@@ -614,5 +657,12 @@ Fixpoint disk_after (file : str) (before : str) (pending : option str) (ops : li
     if str_eqb a (file ++ tmp_suffix) && str_eqb b file
     then disk_after file (match pending with Some c => c | None => before end) None ops'
     else disk_after file before pending ops'
+  | OpCreateExcl p :: ops' =>
+    if str_eqb p (file ++ tmp_suffix) then disk_after file before (Some []) ops'
+    else disk_after file before pending ops'
+  | OpRemove p :: ops' =>
+    if str_eqb p (file ++ tmp_suffix) then disk_after file before None ops'
+    else disk_after file before pending ops'
+  | OpChmodLike _ _ :: ops' => disk_after file before pending ops'
   | OpChmod _ :: ops' => disk_after file before pending ops'
   end.
